@@ -67,6 +67,8 @@ structure PObj where
   constant : Bool
   perInstance : Bool
   checkOnSet : Bool
+  /-- `allow_refs=True`: a value may be a reference (a bound function, ..) that is resolved instead of stored -/
+  allowRefs : Bool := false
   precedence : Option Int
   /-- `bounds` when it is a tuple (immutable); `none` also when `bounds` is a list (then in `mslots`) or `None` -/
   boundsTup : Option (Int × Int)
@@ -121,12 +123,21 @@ inductive Lit
   | none
   | int (n : Int)
   | list (l : List Int)
+  /-- a reference that has no value at this moment (`param.bind(f)` with `f` raising `param.Skip`, a pending
+  async function): meaningful only as constructor keyword of an `allow_refs` parameter, where it assigns
+  nothing; everywhere else outside the fragment -/
+  | pending
   deriving DecidableEq, Repr
 
 def evalLit (cells : List (List Int)) : Lit → Val × List (List Int)
   | .none => (.none, cells)
   | .int n => (.int n, cells)
   | .list l => (.ref cells.length, cells ++ [l])
+  | .pending => (.none, cells)      -- never stored: every use is guarded by `Lit.isPending`
+
+def Lit.isPending : Lit → Bool
+  | .pending => true
+  | _ => false
 
 /-- `copy.deepcopy(v)` for an int or a list of ints -/
 def deepcopyVal (cells : List (List Int)) : Val → Val × List (List Int)
@@ -237,6 +248,7 @@ structure Decl where
   boundsList : Option (Int × Int)
   /-- `objects=[..]` (Selector) -/
   objects : Option (List Int)
+  allowRefs : Bool := false
   deriving DecidableEq, Repr
 
 inductive Target
@@ -268,6 +280,9 @@ inductive Op
   | access (i : InstId) (x : Name)                      -- `obj.param.x`
   | slotSet (t : Target) (x : Name) (s : SlotSet)       -- `obj.param.x.bounds = ..` / `K.param.x.bounds = ..`
   | slotMut (t : Target) (x : Name) (m : SlotMut)       -- `obj.param.x.objects.append(v)` ..
+  /-- `with param.shared_parameters(): raise ..` — a sharing block left by an exception: `__exit__` resets
+  the global sharing state, nothing of it survives -/
+  | sharedFail
   deriving DecidableEq, Repr
 
 /-- the Parameter object a declaration builds -/
@@ -282,7 +297,7 @@ def declare (cells : List (List Int)) (k : ClsId) (d : Decl) : PObj × List (Lis
     | some l => (ms1 ++ [(Slot.objects, cells2.length), (Slot.names, cells2.length + 1)], cells2 ++ [l, []])
     | none => (ms1, cells2)
   ({ kind := d.kind, owner := .cls k, default := dv, instantiate := d.instantiate, constant := d.constant,
-     perInstance := d.perInstance, checkOnSet := d.checkOnSet, precedence := none,
+     perInstance := d.perInstance, checkOnSet := d.checkOnSet, allowRefs := d.allowRefs, precedence := none,
      boundsTup := d.boundsTup, mslots := ms2 }, cells3)
 
 def declareAll (k : ClsId) : List (List Int) → List Decl → List (Name × PObj) × List (List Int)
@@ -325,9 +340,17 @@ def setupKwargs (w : World) (k : ClsId) :
     match w.resolve k x with
     | none => ((vals, cells1), some .typeError)          -- unexpected keyword argument
     | some (_, p) =>
+      if lit.isPending then
+        -- `_resolve_ref`: the reference is recorded, `resolved is Undefined/Skip` → no `setattr`
+        if p.allowRefs then setupKwargs w k rest cells1 vals else ((vals, cells1), some .unsupported)
+      else
       match validate cells1 p v with
       | .error e => ((vals, cells1), some e)
       | .ok cells2 => setupKwargs w k rest cells2 (aset vals x v)
+
+/-- the names a constructor call really assigns: keywords whose value is a reference without a value assign nothing -/
+def assignedNames (kwargs : List (Name × Lit)) : List Name :=
+  (kwargs.filter (fun kv => !kv.2.isPending)).map (·.1)
 
 def doMkInst (w : World) (k : ClsId) (kwargs : List (Name × Lit)) : World × Option Err :=
   match w.cls? k with
@@ -365,7 +388,7 @@ def World.setOwn (w : World) (k : ClsId) (x : Name) (p : PObj) : World :=
   | none => w
 
 /-- `obj.x = v` on an initialised instance -- src: parameterized.py instance_descriptor, Parameter.__set__ -/
-def doSetInst (w : World) (i : InstId) (x : Name) (lit : Lit) : World × Option Err :=
+def doSetInstCore (w : World) (i : InstId) (x : Name) (lit : Lit) : World × Option Err :=
   match w.inst? i with
   | none => (w, some .unsupported)
   | some I =>
@@ -387,7 +410,7 @@ def doSetInst (w : World) (i : InstId) (x : Name) (lit : Lit) : World × Option 
 /-- `K.x = v`: copy-on-write of an inherited Parameter (shallow: the copy shares every slot object
     with the ancestor's Parameter), installed *before* the value is validated
     -- src: parameterized.py ParameterizedMetaclass.__setattr__, Parameter.__set__ (obj is None) -/
-def doSetCls (w : World) (k : ClsId) (x : Name) (lit : Lit) : World × Option Err :=
+def doSetClsCore (w : World) (k : ClsId) (x : Name) (lit : Lit) : World × Option Err :=
   match w.resolve k x with
   | none => (w, some .unsupported)
   | some (k', P) =>
@@ -397,6 +420,13 @@ def doSetCls (w : World) (k : ClsId) (x : Name) (lit : Lit) : World × Option Er
     match validate w1.cells p v with
     | .error e => (w1, some e)
     | .ok cells2 => (({ w1 with cells := cells2 }).setOwn k x { p with default := v }, none)
+
+/-- a reference without a value is outside the fragment except as constructor keyword -/
+def doSetInst (w : World) (i : InstId) (x : Name) (lit : Lit) : World × Option Err :=
+  if lit.isPending then (w, some .unsupported) else doSetInstCore w i x lit
+
+def doSetCls (w : World) (k : ClsId) (x : Name) (lit : Lit) : World × Option Err :=
+  if lit.isPending then (w, some .unsupported) else doSetClsCore w k x lit
 
 /-- `target.x` -/
 def World.read (w : World) : Target → Name → Option Val
@@ -523,6 +553,7 @@ def step (w : World) : Op → World × Option Err
   | .access i x => doAccess w i x
   | .slotSet t x s => doSlotSet w t x s
   | .slotMut t x m => doSlotMut w t x m
+  | .sharedFail => (w, none)
 
 def run (w : World) (ops : List Op) : World := ops.foldl (fun w op => (step w op).1) w
 
